@@ -56,6 +56,29 @@ theorem consts_match_model_createAuthenticate (upper utf16 : Bytes → Bytes) (f
         zeros ConstsC08.auth_mic ++
         lm ++ nt ++ n.domain ++ n.user ++ n.workstation) := by exact rfl
 
+-- `CreateNegotiateMessage`: the length guard in front of the writes (a descriptor length is a 16-bit number)
+theorem consts_match_model_createNegotiateMessage (upper utf16 : Bytes → Bytes) (domain workstation : Bytes) (unicode : Bool) :
+    createNegotiateMessage upper utf16 domain workstation unicode =
+    (
+      let d := negName upper utf16 unicode domain
+      let w := negName upper utf16 unicode workstation
+      if d.length > ConstsC08.neg_maxDomain ∨ w.length > ConstsC08.neg_maxWorkstation then .err
+      else .ok (createNegotiate upper utf16 domain workstation unicode)) := by exact rfl
+
+-- `CreateAuthenticateMessage`: the length guard over the five payload fields
+theorem consts_match_model_createAuthenticateMessage (upper utf16 : Bytes → Bytes) (flags : UInt32) (lm nt : Bytes) (user domain workstation : Bytes) :
+    createAuthenticateMessage upper utf16 flags lm nt user domain workstation =
+    (
+      let n := authNames upper utf16 flags user domain workstation
+      if [lm, nt, n.domain, n.user, n.workstation].any (fun field => field.length > ConstsC08.auth_maxField) then .err
+      else .ok (createAuthenticate upper utf16 flags lm nt user domain workstation)) := by exact rfl
+
+-- the shape of the two length guards: which lengths are compared, and that the AUTHENTICATE guard ranges over exactly
+-- the five fields the model lists, in the model's order
+theorem consts_match_model_length_guards :
+    ConstsC08.neg_lengthGuard_shape = "(|| (> (len domainBytes) 65535) (> (len workstationBytes) 65535))"
+      ∧ ConstsC08.auth_guardedFields = ["lmResponse", "ntResponse", "domainBytes", "usernameBytes", "workstationBytes"] := ⟨rfl, rfl⟩
+
 -- the order and widths of everything the two builders write, and how the payload offsets follow one another
 theorem consts_match_model_message_orders :
     ConstsC08.neg_puts
